@@ -3,6 +3,7 @@ from registry_api import T
 
 FAMILIES = {
     "search": dict(src="search.cpp"),
+    "compare": dict(src="compare.cpp"),
 }
 
 PROPS = {
@@ -24,7 +25,27 @@ PROPS = {
     ),
 }
 
+PROPS["C06"] = dict(
+    family="compare",
+    theorems=[],
+    rule="exhaustive: all ordered pairs of byte strings over {00,41,61,5A,7A,7F,80,FF} up to length 3 (quick: one side up to 2) and over {00,41,61,80,FF} up to "
+         "length 4 (thorough) x prefix limits n in {none,0..5,SIZE_MAX} through every ST::string overload (compare / compare_n / compare_i / compare_ni with "
+         "string, const char*, const char8_t*, null; ==, !=, <, less_i, equal_i, hash/hash_i equality), the same over the fold edges {@ A Z [ ` a z {}; all triples "
+         "up to length 2; buffers of char/char16_t/char32_t/wchar_t over critical units incl. 7FFF/8000/FFFF and 7FFFFFFF/80000000/FFFFFFFF; length-only cases "
+         "{0,1,2^31-1,2^31,2^31+1,2^32,2^32+1,2^63,SIZE_MAX-1,SIZE_MAX}^2 x n through the static (ptr,len) compare of all four element types (made only when at "
+         "most one unit is compared); a real ST::string of 2^31 (thorough: 2^32) bytes against the empty string; seeded random long operands with a common prefix. "
+         "non-trivial = both operands non-empty",
+    exhaustive={"quick": False, "thorough": False},
+    assumptions=["bytes are 0..255; ST::string carrying arbitrary bytes is built with assume_valid",
+                 "const char* / const char_T* overloads receive a NUL-terminated copy: they see the units before the first zero unit",
+                 "char_traits<wchar_t>::compare is wmemcmp, which orders by the signed 32-bit value on this platform: 'unsigned' order is claimed for wchar_t "
+                 "buffers whose units are below 2^31 (every code point); for larger units the judge accepts the platform order"],
+)
+
 MANIFEST_TEXT = {
+    "C06": dict(text="(under construction) compare / operators / hashes / case maps against lexicographic order",
+                design_ref="DESIGN.md section 3, C06", note="see evidence",
+                technique="Lean 4 proof over a hand model + exhaustive short-string differential correspondence under ASan/UBSan"),
     "C07": dict(text="(under construction) find / find_last / contains / starts_with / ends_with against least / greatest occurrence",
                 design_ref="DESIGN.md section 3, C07", note="see evidence",
                 technique="Lean 4 proof over a hand model + exhaustive short-string differential correspondence under ASan/UBSan"),
